@@ -33,7 +33,7 @@ META = {
     },
 }
 CASES = {'quick': 1200, 'thorough': 80000}
-SECONDS = {'quick': 60, 'thorough': 600}
+SECONDS = {'quick': 300, 'thorough': 600}
 
 
 def sig(a):
